@@ -17,6 +17,18 @@ converter).  Tie to the code on every run (observation level only — the proper
     final file system extensionally (which contains the projection target status / listing delta
     outside temp / temp residue).
 
+  Target names and spellings.  The target's file name is an input like any other (`tname`): usual
+  (`report.<ext>`), upper/mixed-case or foreign suffix (`.HTML`, `.htm`, `.xhtml`, `.out`), no suffix, several
+  suffixes, hidden files, trailing dot, only dots, spaces, non-ASCII, shell metacharacters, long names, names
+  ending in `_files`; the target is passed as `Path`/`str`, absolute / relative to the working directory /
+  through `./`, `../`, `//`, `~` (`form`).  The names of the intermediate files are *derived*: the model
+  computes `<stem>.rtf` from the target's name (`Model.Export.rtfNameOf`) and its stub converter names its
+  output after its input (`stubN`/`convName`), exactly as the real converter does; the real run reports the
+  names the converter was given / chose, and the two are compared.  The oracle's resource-folder clause uses
+  the name of the folder the converter *actually produced* (`<converted name>_files`): it has to be next to the
+  target under that name, with exactly the converter's content, and nowhere else.  `names` unit level: `stem`,
+  `rtfNameOf`, `convName`, `resourcesOf` of the model against pathlib on random names.
+
   Fault index: the model's fault point is "before the k-th effect".  The real run logs every completed
   effect (stdlib wrappers + return events); k := number of effects completed when the exception was
   injected.  An injected exception that the library swallows is compared with the model's fault-free run.
@@ -24,16 +36,22 @@ converter).  Tie to the code on every run (observation level only — the proper
 from __future__ import annotations
 
 import json
+import re
 
 from .. import common, faults
 from ..common import sub_rng
 
 RULE = ("matrix: 4 export functions x target states (existing / absent / missing directories / ancestor is a file / "
-        "target is a directory / HTML: existing resource folder, resource path is a file, second export) x converter "
+        "target is a directory / a folder <target name>_files exists / HTML: existing resource folder, resource path "
+        "is a file, second export) x converter "
         "(7 stub behaviours, failing lookup, real LibreOfficeConverter on a fake soffice: ok/okres/fail/no output, "
-        "lookup through PATH) x documents (incl. two whose encode raises); faults: for each profile every library "
+        "lookup through PATH) x documents (incl. two whose encode raises); names: the same matrix over target FILE "
+        "NAMES (usual, upper/mixed-case suffix, foreign suffix, none, several, hidden, trailing dot, dots only, spaces, "
+        "non-ASCII, shell metacharacters, long, *_files) x target SPELLINGS (Path/str, absolute, relative, ./, ../, //, ~), "
+        "successful and failing converters and encoders; unit: model stem/rtf/converted/resource names vs pathlib on "
+        "random names; faults: for each profile every library "
         "call site (first instance; thorough: also last) + random call instances; non-trivial = distinct "
-        "(function, state, converter, outcome kind, faulted site)")
+        "(function, state, converter, outcome kind, faulted site, name class, spelling)")
 TRUSTED = [
     "Lean 4.33 kernel; axioms ⊆ {propext, Classical.choice, Quot.sound} (audited per theorem on every run)",
     "Lean compiler for the driver executable",
@@ -45,11 +63,17 @@ MANIFEST = dict(
          "system, TemporaryDirectory as scoped resource, a fault point before every effect, any converter confined "
          "to its output directory): on failure target unchanged, temp dirs gone, nothing else changed except created "
          "parent directories; on success target = encoder's string / converter's output, HTML resource folder exactly "
-         "next to the target, nothing else. Tied to the code on every run by fault-injected real exports (every "
-         "library call site) judged by a Lean-defined oracle on before/after snapshots and compared with the model.",
+         "next to the target, nothing else. File names are data (Props/C18names.lean): <stem>.rtf, the converted "
+         "file's name and the resource folder's name <converted name>_files are derived from an arbitrary target name, "
+         "the folder is placed next to the target under the converted file's name. Tied to the code on every run by "
+         "fault-injected real exports (every library call site; target names with usual/upper-case/foreign/no/several "
+         "suffixes, hidden, spaces, non-ASCII, shell metacharacters; targets spelled absolute/relative/./../~) judged by a "
+         "Lean-defined oracle on before/after snapshots and compared with the model.",
     note="partial: OS-level failures inside one effect (ENOSPC in write_text, cross-device move, failing rmtree, a "
          "raising print after the move) are not exhibited by the model; LibreOffice is replaced by stubs / a fake "
-         "soffice. Models the tree with the D23 repair (fixes/html-resource-folder-nesting.patch).",
+         "soffice. Models the tree with the D23 repair (fixes/html-resource-folder-nesting.patch). A target that is itself "
+         "called <stem>.html_files (its own resource folder's path) is outside the success clause (hypothesis of "
+         "C18_conv_success): there write_html returns and the HTML file is replaced by the folder.",
     technique="Lean 4 proof (effect sequences, frame reasoning) + fault-injected differential correspondence",
     design="7/C18",
 )
@@ -118,8 +142,9 @@ def _latin(s: str | None):
 def driver_request(case, r):
     fn = case["fn"]
     enc = r["enc"] if r["enc"] is not None else (None if r["enc_failed"] else _latin(r["pre_enc"]))
+    # intermediate names are NOT passed: the model derives <stem>.rtf from tname and the converted file's name from that
     req = dict(op="export", fn=fn, before=r["before"], after=r["after"], dir=r["dir"], tname=r["tname"],
-               tmpRoot=["tmp"], tA=TMP_A, tB=TMP_B, rtfName=r["rtf_name"], enc=enc,
+               tmpRoot=["tmp"], tA=TMP_A, tB=TMP_B, enc=enc,
                k=(r["k"] if (r["fired"] and not r["swallowed"]) else None))
     conv = case.get("conv") or {}
     if fn != "rtf":
@@ -128,32 +153,47 @@ def driver_request(case, r):
             req["conv"] = dict(mode="lookup_fail")
         else:
             beh = conv["beh"] if mode == "stub" else REAL_BEHS[conv["beh"]]
-            req["conv"] = dict(mode="stub", beh=beh, fmt=faults.EXT[fn], outName=r["out_name"],
-                               explicit=(mode != "path"))
+            req["conv"] = dict(mode="stub", beh=beh, fmt=faults.EXT[fn], explicit=(mode != "path"))
     tdir = case["state"] == "target_is_dir"
     if fn == "rtf":
         expected = enc
     else:
         expected = r["written"]
+    # the resource folder = the companion of the file the converter actually produced (observed name)
+    res_name = r.get("res_name") if r["has_res"] else None
+    if r["has_res"] and res_name is None:
+        raise common.MachineryError("a resource folder was produced but the converted file's name was not observed")
     obs = dict(raised=r["raised"], mustRaise=bool(r["enc_failed"] or r["conv_failed"]),
-               expected=None if tdir else expected,
-               resName=(r["out_name"] + "_files") if (r["has_res"] and not tdir) else None,
+               expected=None if (tdir or res_is_target(r)) else expected,
+               resName=res_name if not tdir else None,
                resContent=faults.RES_CONTENT)
     req["obs"] = obs
     return req
 
 
+def res_is_target(r):
+    """the resource folder's destination is the target path itself (a target called <x>.html_files): the two outputs
+    cannot both be at the requested location; excluded by hypothesis in C18_conv_success — correspondence only"""
+    return bool(r.get("has_res")) and r.get("res_name") == r["tname"]
+
+
 def case_label(case):
     c = case.get("conv") or {}
     return f"{case['fn']}/{case['docname']}/{case['state']}/{c.get('mode', '-')}:{c.get('beh', '-')}" + \
-        ("/twice" if case.get("twice") else "")
+        ("/twice" if case.get("twice") else "") + \
+        (f"/name={case['tname']!r}" if case.get("tname") else "") + (f"/as={case['form']}" if case.get("form") else "")
 
 
 def slim(case, r=None):
     """what a replay file stores"""
-    d = {k: case[k] for k in ("fn", "docname", "doc", "state", "conv", "fault", "twice") if k in case}
+    d = {k: case[k] for k in ("fn", "docname", "doc", "state", "conv", "fault", "twice", "tname", "form", "nclass")
+         if k in case}
     if r is not None:
-        d["observed"] = {k: r.get(k) for k in ("raised", "exc", "kind", "trace", "fired_site", "k", "swallowed")}
+        d["observed"] = {k: r.get(k) for k in ("raised", "exc", "kind", "trace", "fired_site", "k", "swallowed",
+                                                "arg", "conv_in_name", "conv_out_name", "res_name")}
+        if r.get("after") is not None:
+            d["observed"]["work_after"] = ["/".join(e[0]) + ("/" if e[1] == "d" else "") for e in r["after"]
+                                           if e[0][:1] == ["work"]][:40]
     return d
 
 
@@ -164,7 +204,11 @@ def judge(res, case, r, d):
     outside = fn != "rtf" and case["state"] == "target_is_dir"
     viol = d.get("viol", [])
     if viol and not outside:
-        fails.append("oracle clauses violated on the real file system: " + ", ".join(viol))
+        extra = ""
+        if "resource-folder-not-exactly-next-to-target" in viol:
+            extra = (f" (the converter produced {r.get('conv_out_name')!r} with the folder {r.get('res_name')!r}; after the "
+                     f"call it is not at {'/'.join(r['dir'] + [r.get('res_name') or '?'])} with the converter's content)")
+        fails.append("oracle clauses violated on the real file system: " + ", ".join(viol) + extra)
     if r.get("conv_input") is not None and r.get("enc") is not None and r["conv_input"] != r["enc"]:
         fails.append("the converter was not given exactly the string rtf_encode() returned")
     if r["kind"].startswith("other:"):
@@ -183,6 +227,10 @@ def judge(res, case, r, d):
     mtrace = [e for e in d["model_trace"] if e != "typecheck"]
     if mtrace != r["trace"]:
         dis.append(f"completed effects differ: model {mtrace} vs real {r['trace']} (raw {r['events']})")
+    if r.get("conv_in_name") is not None and r["conv_in_name"] != d["model_rtf_name"]:
+        dis.append(f"the converter was given {r['conv_in_name']!r}, the model derives {d['model_rtf_name']!r} from the target name")
+    if r.get("conv_out_name") is not None and d.get("model_out_name") is not None and r["conv_out_name"] != d["model_out_name"]:
+        dis.append(f"the converter produced {r['conv_out_name']!r}, the model's converter {d['model_out_name']!r}")
     if d.get("diff"):
         dis.append("final file systems differ at " + ", ".join("/".join(p) for p in d["diff"][:6]))
     return fails, dis
@@ -204,12 +252,24 @@ def run_cases(res, cases, phase):
         fails, dis = judge(res, c, o, d)
         site = tuple(o["fired_site"]) if o.get("fired_site") else None
         cm = c.get("conv") or {}
-        nt = (c["fn"], c["state"], cm.get("mode"), cm.get("beh"), o["kind"], site)
+        nt = (c["fn"], c["state"], cm.get("mode"), cm.get("beh"), o["kind"], site, c.get("nclass"), c.get("form"))
         res.case(slim(c, o), nt)
         res.corr_checked += 1
         res.count(f"{phase}:{c['fn']}")
         res.count("outcome:" + ("injected" if (o["fired"] and not o["swallowed"]) else o["kind"]))
         res.count("state:" + c["state"])
+        if c.get("nclass"):
+            res.count("name:" + c["nclass"])
+            if o["kind"] == "ok":
+                res.count("name_success:" + c["nclass"])
+                if o.get("has_res"):
+                    res.count("name_success_with_resource_folder:" + c["nclass"])
+        if c.get("form"):
+            res.count("spelling:" + c["form"])
+        if o.get("has_res") and o.get("res_name") != o["tname"] + "_files":
+            res.count("resource_folder_name_differs_from_<target name>_files")
+        if res_is_target(o):
+            res.count("oracle_target_clause_skipped:resource_folder_is_target(outside domain)")
         if o.get("swallowed"):
             res.count("fault_swallowed_by_library")
         if o.get("transformed"):
@@ -225,12 +285,13 @@ def run_cases(res, cases, phase):
 
 # ------------------------------------------------------------------ case generation
 
-RTF_STATES = ["existing", "absent", "missing_dirs", "parent_is_file", "grandparent_is_file", "target_is_dir"]
-CONV_STATES = ["existing", "absent", "missing_dirs", "parent_is_file", "target_is_dir"]
+RTF_STATES = ["existing", "absent", "missing_dirs", "parent_is_file", "grandparent_is_file", "target_is_dir",
+              "named_files_dir"]
+CONV_STATES = ["existing", "absent", "missing_dirs", "parent_is_file", "target_is_dir", "named_files_dir"]
 HTML_STATES = ["existing_res", "res_is_file"]
 
 
-def mk(fn, docname, state, conv=None, fault=None, twice=False, sites=False):
+def mk(fn, docname, state, conv=None, fault=None, twice=False, sites=False, tname=None, form=None, nclass=None):
     c = dict(fn=fn, docname=docname, doc=DOCS[docname], state=state, fault=fault)
     if conv is not None:
         c["conv"] = conv
@@ -238,7 +299,147 @@ def mk(fn, docname, state, conv=None, fault=None, twice=False, sites=False):
         c["twice"] = True
     if sites:
         c["sites"] = True
+    if tname is not None:
+        c["tname"] = tname
+        c["nclass"] = nclass or name_class_of(fn, tname)
+    if form is not None:
+        c["form"] = form
     return c
+
+
+# ------------------------------------------------------------------ target file names
+
+def name_classes(fn):
+    """classes of target FILE NAMES (the directory part is the target *state*).  Nothing here is special to one
+    export function: every class is instantiated with the function's own extension `e`."""
+    e = faults.EXT[fn]
+    foreign = dict(html=["report.htm", "report.xhtml", "page.shtml"], docx=["report.doc", "report.docm"],
+                   pdf=["report.ps", "report.fdf"], rtf=["report.txt", "report.doc"])[fn]
+    return {
+        "usual": [f"report.{e}"],
+        "upper_suffix": [f"report.{e.upper()}", f"REPORT.{e.upper()}"],
+        "mixed_suffix": [f"Report.{e.capitalize()}", f"report.{e[0]}{e[1:].upper()}"],
+        "foreign_suffix": foreign + ["report.out"],
+        "sibling_suffix": [f"report.{x}" for x in ("rtf", "docx", "pdf", "html") if x != e],
+        "no_suffix": ["report", "README"],
+        "multi_suffix": [f"report.v1.2.{e}", "report.tar.gz", f"report.{e}.bak", f"report.{e}.{e}", f"report.html.{e}",
+                         f"a.b.c.d.{e}"],
+        "hidden": [".report", f".{e}", f".report.{e}"],
+        "trailing_dot": ["report.", f"report.{e}."],
+        "dots_only_stem": [f"..{e}", "...", f"...{e}"],
+        "spaces": [f"my report (final).{e}", f" lead.{e}", f"trail .{e}", "two  words", f"tab\there.{e}"],
+        "non_ascii": [f"Bericht_März.{e}", f"отчёт.{e}", f"報告書.{e}", "résumé", f"naïve.ÄÖ{e.upper()}",
+                      f"r\U0001f600.{e}"],
+        "shell_meta": [f"a'b\"c $d;e&f.{e}", f"-rf.{e}", f"*.{e}", f"`x`$(y).{e}", f"back\\slash.{e}",
+                       f"new\nline.{e}", f"%s%d{{0}}.{e}"],
+        "long": ["L" * 200 + f".{e}", "M" * 230],
+        "files_suffix": [f"report.{e}_files", "report_files", "report.html_files", f"report_files.{e}"],
+    }
+
+
+def name_class_of(fn, name):
+    for k, v in name_classes(fn).items():
+        if name in v:
+            return k
+    return "other"
+
+
+OK_CONVS = [dict(mode="stub", beh="okRes"), dict(mode="real", beh="okres"), dict(mode="path", beh="okres"),
+            dict(mode="stub", beh="okPlain"), dict(mode="real", beh="ok")]
+BAD_CONVS = [dict(mode="stub", beh=b) for b in ("failBefore", "failAfter", "retList", "retOther", "retMissing")] + \
+            [dict(mode="lookup_fail"), dict(mode="real", beh="fail"), dict(mode="real", beh="noout")]
+
+
+def name_cases(rng, tier):
+    """the matrix over target names x spellings: per (function, name) successful exports with and without a resource
+    folder (stub / real converter / converter found through PATH), failing converters, a failing encoder; every HTML
+    name also over an existing resource folder and next to a folder called <target name>_files"""
+    cases = []
+    quick = tier == "quick"
+    docs = ["small", "unicode"] if quick else GOOD_DOCS
+    forms = list(faults.FORMS)
+    for fn in ("rtf", "docx", "pdf", "html"):
+        for cls, names in name_classes(fn).items():
+            picked = [rng.choice(names)] if quick else names
+            if quick and cls in ("foreign_suffix", "upper_suffix", "no_suffix", "multi_suffix"):
+                picked = list(dict.fromkeys(picked + [rng.choice(names)]))
+            for nm in picked:
+                def add(state, cv=None, doc=None, form=None, twice=False):
+                    cases.append(mk(fn, doc or rng.choice(docs), state, cv, tname=nm, nclass=cls,
+                                    form=form or rng.choice(forms), twice=twice))
+                if fn == "rtf":
+                    for st in (RTF_STATES if not quick else rng.sample(RTF_STATES, 3)):
+                        add(st)
+                    add(rng.choice(["existing", "absent", "missing_dirs"]), doc=rng.choice(BAD_DOCS))
+                    continue
+                okstates = ["existing", "absent", "missing_dirs", "named_files_dir"] + \
+                    (HTML_STATES if fn == "html" else [])
+                allstates = CONV_STATES + (HTML_STATES if fn == "html" else [])
+                if quick:
+                    add(rng.choice(okstates), OK_CONVS[0])
+                    add(rng.choice(okstates), OK_CONVS[1])
+                    add(rng.choice(okstates), rng.choice(OK_CONVS[2:]))
+                    for cv in rng.sample(BAD_CONVS, 2):
+                        add(rng.choice(allstates), cv)
+                    add(rng.choice(allstates), rng.choice(OK_CONVS), doc=rng.choice(BAD_DOCS))
+                else:
+                    for cv in OK_CONVS:
+                        for st in okstates:
+                            add(st, cv)
+                    for cv in BAD_CONVS:
+                        for st in rng.sample(allstates, 3):
+                            add(st, cv)
+                    for st in rng.sample(allstates, 3):
+                        add(st, rng.choice(OK_CONVS), doc=rng.choice(BAD_DOCS))
+                if fn == "html":
+                    add("existing_res", OK_CONVS[0])
+                    add("named_files_dir", rng.choice(OK_CONVS[:3]))
+                    add("existing", OK_CONVS[0], twice=True)
+    # every spelling x every function, succeeding and failing, names drawn from all classes
+    for fn in ("rtf", "docx", "pdf", "html"):
+        classes = name_classes(fn)
+        for form in forms:
+            for ok in (True, False):
+                cls = rng.choice(list(classes))
+                nm = rng.choice(classes[cls])
+                if fn == "rtf":
+                    cases.append(mk("rtf", rng.choice(docs if ok else BAD_DOCS),
+                                    rng.choice(["existing", "absent", "missing_dirs"]), tname=nm, nclass=cls, form=form))
+                else:
+                    st = rng.choice(["existing", "absent", "missing_dirs"] + (["existing_res"] if fn == "html" else []))
+                    cv = rng.choice(OK_CONVS[:3]) if ok else rng.choice(BAD_CONVS)
+                    cases.append(mk(fn, rng.choice(docs), st, cv, tname=nm, nclass=cls, form=form))
+    return cases
+
+
+def names_unit(res, rng, tier):
+    """unit level of the names-as-data part of the model: `stem`, `rtfNameOf`, `convName`, `resourcesOf` against
+    pathlib (what the code and the converter use) on random names, dot-heavy"""
+    import pathlib
+    n = 1500 if tier == "quick" else 20000
+    alphabet = [".", ".", ".", "a", "B", " ", "é", "_", "-", "1", "報", "f", "x"]
+    names = []
+    for fn in ("rtf", "docx", "pdf", "html"):
+        for v in name_classes(fn).values():
+            names += [(fn, x) for x in v]
+    while len(names) < n:
+        nm = "".join(rng.choice(alphabet) for _ in range(rng.randint(1, 9)))
+        if nm in (".", ".."):
+            continue
+        names.append((rng.choice(["rtf", "docx", "pdf", "html"]), nm))
+    drv = common.driver_batch([dict(op="export_names", tname=nm, fmt=faults.EXT[fn]) for fn, nm in names])
+    for (fn, nm), d in zip(names, drv):
+        st = pathlib.PurePosixPath(nm).stem
+        rtf = f"{st}.rtf"
+        out = f"{pathlib.PurePosixPath(rtf).stem}.{faults.EXT[fn]}"
+        want = dict(stem=st, rtf=rtf, out=out, res=out + "_files")
+        res.evaluations += 1
+        res.corr_checked += 1
+        res.count("names_unit")
+        if out != f"{st}.{faults.EXT[fn]}":
+            res.count("names_unit:converted stem differs from target stem")
+        if d != want:
+            res.disagree(dict(names_unit=nm, fn=fn), f"names unit: model {d} vs pathlib {want} for the target name {nm!r}")
 
 
 def matrix_cases(rng, tier):
@@ -276,6 +477,13 @@ def profiles(rng, tier):
             ("docx", "small", "absent", dict(mode="path", beh="ok")),
             ("pdf", "small", "existing", dict(mode="lookup_fail")),
             ("docx", "unicode", "existing", dict(mode="real", beh="ok")),
+            # unusual target names / spellings: every failure path again
+            ("html", "small", "existing_res", dict(mode="stub", beh="okRes"), dict(tname="report.htm", form="rel")),
+            ("html", "unicode", "named_files_dir", dict(mode="real", beh="okres"),
+             dict(tname="Bericht März.XHTML", form="home")),
+            ("docx", "small", "missing_dirs", dict(mode="stub", beh="okPlain"), dict(tname="report", form="dot")),
+            ("pdf", "small", "existing", dict(mode="stub", beh="failAfter"), dict(tname=".report.v1.PDF", form="updown")),
+            ("rtf", "small", "absent", None, dict(tname="my report.final", form="relpath")),
         ]
     out = []
     convs = [dict(mode="stub", beh="okRes"), dict(mode="stub", beh="okPlain"), dict(mode="real", beh="okres"),
@@ -286,17 +494,22 @@ def profiles(rng, tier):
             states = ["existing", "missing_dirs"] + (["existing_res"] if fn == "html" else [])
             for st in states:
                 out.append((fn, dn, st, None if fn == "rtf" else rng.choice(convs)))
+                classes = name_classes(fn)
+                cls = rng.choice(list(classes))
+                out.append((fn, dn, rng.choice(states + ["named_files_dir"]), None if fn == "rtf" else rng.choice(convs),
+                            dict(tname=rng.choice(classes[cls]), form=rng.choice(list(faults.FORMS)))))
     return out
 
 
 def fault_cases(res, rng, tier):
     profs = profiles(rng, tier)
-    probe = [mk(fn, dn, st, cv, sites=True) for fn, dn, st, cv in profs]
+    profs = [(pr + ({},))[:5] for pr in profs]
+    probe = [mk(fn, dn, st, cv, sites=True, **nm) for fn, dn, st, cv, nm in profs]
     obs = common.pool_map(_worker, probe, chunksize=1)
     cases = []
     all_sites = set()
     n_rand = 40 if tier == "quick" else 60
-    for (fn, dn, st, cv), o in zip(profs, obs):
+    for (fn, dn, st, cv, nm), o in zip(profs, obs):
         if "machinery" in o:
             raise common.MachineryError("profiling run failed: " + o["machinery"])
         sites = [tuple(s) for s in (o["sites"] or [])]
@@ -313,30 +526,63 @@ def fault_cases(res, rng, tier):
             if n:
                 idx.add(rng.randint(1, n))
         for i in sorted(idx):
-            cases.append(mk(fn, dn, st, cv, fault=i))
+            cases.append(mk(fn, dn, st, cv, fault=i, **nm))
     res.extra["fault_profiles"] = len(profs)
     res.extra["library_call_sites_enumerated"] = len(all_sites)
     return cases
 
 
+def _simplicity(cw):
+    c = cw[0]
+    return (c.get("fault") is not None, "names_unit" in c, c.get("form") not in (None, "path"), bool(c.get("twice")),
+            re.fullmatch(r"[A-Za-z]+(\.[A-Za-z]+)?", c.get("tname") or "x") is None,
+            c.get("state") not in ("absent", "existing"), c.get("docname") != "small",
+            (c.get("conv") or {}).get("mode") not in (None, "stub"), len(c.get("tname") or ""))
+
+
 def run(res: common.Result, build) -> int:
     rng = sub_rng(res.seed, "c18")
     run_cases(res, matrix_cases(sub_rng(res.seed, "c18", "matrix"), res.tier), "matrix")
+    names_unit(res, sub_rng(res.seed, "c18", "names_unit"), res.tier)
+    run_cases(res, name_cases(sub_rng(res.seed, "c18", "names"), res.tier), "names")
     fobs = run_cases(res, fault_cases(res, sub_rng(res.seed, "c18", "faults"), res.tier), "fault")
     hit = {tuple(o["fired_site"]) for o in fobs if o.get("fired_site")}
     res.extra["library_call_sites_faulted"] = len(hit)
     res.exhaustive = False
+    # report the simplest failing input first (no fault, usual spelling, short name)
+    res.failures.sort(key=_simplicity)
+    res.disagreements.sort(key=_simplicity)
     return common.finish(
         res, build, RULE, TRUSTED, ASSUME,
         explanation="C18_rtf_failure/_success/_encode_first/_complete and C18_conv_temps_gone/_temp_area_unchanged/"
                     "_failure/_success hold for every initial file system, encoder outcome, fault index and confined "
                     "converter (C18_stub_confined: the injected stubs are confined). Level partial: effects are atomic in "
-                    "the model; OS failures inside one effect are not exhibited. The model is the tree with the D23 "
+                    "the model; OS failures inside one effect are not exhibited. Names are data: C18names_* (Props/C18names.lean) "
+                    "derive <stem>.rtf, the converted file's name and the resource folder's name from an arbitrary target "
+                    "name and place the folder next to the target under the converted file's name. The model is the tree with the D23 "
                     "repair; C18_D23_unrepaired_nests / C18_D23_repaired state the defect and its repair on the commit block.")
 
 
 def replay(payload) -> int:
     case = payload.get("case") or {}
+    if not case:
+        for b in payload.get("broken") or []:
+            if b.get("kind") == "correspondence":
+                case = b.get("case") or {}
+    if "names_unit" in case:
+        tmp = common.Result("C18", "quick", 0)
+        import pathlib
+        nm, fn = case["names_unit"], case.get("fn", "html")
+        d = common.driver_batch([dict(op="export_names", tname=nm, fmt=faults.EXT[fn])])[0]
+        st = pathlib.PurePosixPath(nm).stem
+        want = dict(stem=st, rtf=f"{st}.rtf", out=f"{pathlib.PurePosixPath(st + '.rtf').stem}.{faults.EXT[fn]}")
+        want["res"] = want["out"] + "_files"
+        print("names unit:", repr(nm), "model", d, "pathlib", want)
+        if d != want:
+            print("VIOLATION property=C18 replay=<given>")
+            return 1
+        print("property holds on this input")
+        return 0
     if "doc" not in case and "docname" in case:
         case["doc"] = DOCS[case["docname"]]
     case.pop("observed", None)
@@ -346,6 +592,9 @@ def replay(payload) -> int:
         return 2
     d = common.driver_batch([driver_request(case, o)])[0]
     print("case            :", case_label(case), "fault at library call", case.get("fault"), "site", o.get("fired_site"))
+    print("target argument :", repr(o.get("arg")), "| converter was given", repr(o.get("conv_in_name")), "and produced",
+          repr(o.get("conv_out_name")), "+ resource folder", repr(o.get("res_name")))
+    print("work/ afterwards:", ["/".join(e[0][1:]) + ("/" if e[1] == "d" else "") for e in o["after"] if e[0][:1] == ["work"] and len(e[0]) > 1])
     print("real outcome    :", o["kind"], "|", o["exc"])
     print("real effects    :", o["trace"], "(raw:", o["events"], ")")
     print("model outcome   :", d["model_result"], d["model_trace"])
